@@ -1,4 +1,4 @@
-import XalanModel.C10.SpecProofs
+import XalanModel.C10.CountProofs
 /-!
 # C10 — encodings used by `generated_tables_agree`, and the rules/trees used by the examples and counterexamples of
 `Props/C10.lean` (kept out of the property file)
